@@ -12,6 +12,7 @@ mod fileck;
 mod fresh;
 mod iosim;
 mod isolate;
+mod linear;
 mod metax;
 mod optx;
 mod pool;
@@ -59,6 +60,27 @@ fn main() {
         "golden-gen" => std::process::exit(compatx::generate()),
         "bench" => bench(),
         "dbg" => debug_bisim(),
+        "dbg-flb" => {
+            // prints the length of the persisted free list after every commit of the boundary walk
+            real::install_quiet_panic_hook();
+            let scratch = report::scratch_dir();
+            iosim::set_track_prefix(&scratch);
+            let p: u64 = args.get(2).and_then(|s| s.parse().ok()).unwrap_or(1024);
+            let path = format!("{}/dbg.db", scratch);
+            let cfg = runner::Cfg { pagesize: p, num_pages: 32, ..runner::Cfg::default() };
+            let mut r = runner::Runner::new(&path, cfg.clone()).unwrap();
+            let mut counts = vec![];
+            let variant: u8 = args.get(3).and_then(|s| s.parse().ok()).unwrap_or(0);
+            for a in optx::freelist_boundary_walk(p, variant) {
+                r.step(&a, &runner::Oracles::NONE);
+                if matches!(a, runner::Action::Tx { .. }) {
+                    if let Ok(rep) = fileck::check(&r.file_bytes(), p) {
+                        counts.push(rep.free.len());
+                    }
+                }
+            }
+            println!("{:?}", counts);
+        }
         "bench-fresh" => bench_fresh(),
         "check" => {
             let id = args.get(2).cloned().unwrap_or_else(|| usage());
@@ -119,46 +141,32 @@ fn run_check(id: &str, tier: Tier) -> i32 {
                 "strict profile: debug assertions and overflow checks on; tmpfs as the device; page size 1024".into(),
                 "hash-map iteration order inside the library fixed by the entropy seed (VERIF_SEED)".into(),
             ];
+            if id == "C05" {
+                // the persisted free list walked one or two ids per commit across the capacity of one page,
+                // reopened after every commit (first, while this process is still single-threaded)
+                c.assumptions.push("plus long fixed histories (coverage.long_histories): the free list walked across the one-page capacity with a reopen after every commit, at page sizes 1024 and 2048 (thorough: also 4096)".into());
+                let or = runner::Oracles { fileck: true, dbcheck: true, dump_after: true, ..runner::Oracles::NONE };
+                let mut list = vec![];
+                for p in if tier == Tier::Quick { vec![1024u64, 2048] } else { vec![1024u64, 2048, 4096] } {
+                    for variant in 0..4u8 {
+                        list.push((format!("free-list-boundary-walk-p{}-v{}", p, variant), runner::Cfg { pagesize: p, num_pages: 32, ..runner::Cfg::default() }, optx::freelist_boundary_walk(p, variant), or));
+                    }
+                }
+                linear::run_histories(&mut c, list, "long_histories");
+            }
             if id == "C03" {
                 // (first, while this process is still single-threaded: each history runs in a forked copy)
                 // long staged histories (a reader held over tens of commits)
                 c.assumptions.push("plus staged histories in which one reader is held open over 8 to 66 (thorough: up to 260) commits while a second, younger one outlives it (coverage.long_histories)".into());
-                let mut n = 0u64;
-                let scratch = report::scratch_dir();
-                iosim::set_track_prefix(&scratch);
-                for (name, cfg, acts) in c03::long_histories(tier) {
-                    let hist = runner::History { cfg: cfg.clone(), actions: acts.clone() };
-                    let path = format!("{}/c03-long.db", scratch);
-                    let res = isolate::run_in_child(600, || {
-                        let or = runner::Oracles { readers_frozen: true, dump_after: true, ..runner::Oracles::NONE };
-                        let mut vs: Vec<serde_json::Value> = vec![];
-                        match runner::Runner::new(&path, cfg.clone()) {
-                            Ok(mut r) => {
-                                for (i, a) in acts.iter().enumerate() {
-                                    for v in r.step(a, &or) {
-                                        vs.push(serde_json::json!([v.class, format!("step {}: {}", i, v.detail)]));
-                                    }
-                                    if r.poisoned || vs.len() > 5 {
-                                        break;
-                                    }
-                                }
-                            }
-                            Err(e) => vs.push(serde_json::json!(["create_failed", e])),
-                        }
-                        let _ = std::fs::remove_file(&path);
-                        serde_json::Value::Array(vs).to_string()
-                    });
-                    n += 1;
-                    match res {
-                        Ok(out) => {
-                            for v in serde_json::from_str::<serde_json::Value>(&out).ok().and_then(|v| v.as_array().cloned()).unwrap_or_default() {
-                                c.violation(v[0].as_str().unwrap_or("long"), &format!("[{}] {}", name, v[1].as_str().unwrap_or("")), || serde_json::json!({"engine": "seqx", "seed": 1, "history": hist.to_json()}));
-                            }
-                        }
-                        Err(e) => c.violation("process_death", &format!("[{}] the process running this history {}", name, e), || serde_json::json!({"engine": "seqx", "seed": 1, "history": hist.to_json()})),
+                let or = runner::Oracles { readers_frozen: true, dump_after: true, ..runner::Oracles::NONE };
+                let mut list: Vec<(String, runner::Cfg, Vec<runner::Action>, runner::Oracles)> = c03::long_histories(tier).into_iter().map(|(n, cfg, acts)| (n, cfg, acts, or)).collect();
+                // the persisted free list walked across the capacity of one page, with rolling readers
+                for p in if tier == Tier::Quick { vec![1024u64] } else { vec![1024u64, 4096] } {
+                    for variant in 0..4u8 {
+                        list.push((format!("free-list-boundary-walk-with-readers-p{}-v{}", p, variant), runner::Cfg { pagesize: p, num_pages: 4 * ((p as usize - 32) / 8 + 100), ..runner::Cfg::default() }, linear::boundary_walk_with_readers(p, variant), or));
                     }
                 }
-                c.cov("long_histories", serde_json::json!(n));
+                linear::run_histories(&mut c, list, "long_histories");
             }
             seqx::explore(&mut c, id, "seqx");
             if id == "C07" {
